@@ -18,9 +18,10 @@ import (
 var topLoopVars = []string{"i", "j", "k", "w"}
 
 type eg struct {
-	rt   *rapid.T
-	bare bool // the value that leaves a loop / the library argument is the bare register variable
-	anyT bool // a bare variable is handed to a library function declared with ANY-typed (or untyped extra) arguments
+	rt      *rapid.T
+	bare    bool // the value that leaves a loop / the library argument is the bare register variable
+	intArgs bool // the function being written is only called with integers
+	anyT    bool // a bare variable is handed to a library function declared with ANY-typed (or untyped extra) arguments
 }
 
 func (g *eg) pick(label string, xs ...string) string { return rapid.SampledFrom(xs).Draw(g.rt, label) }
@@ -163,14 +164,9 @@ func (g *eg) loopExpr(vars []string, bounds []string, acc, stmtVar string) strin
 		for s, ns := 0, g.n("nstmts", 0, 2); s < ns; s++ {
 			st := g.pick("vstmt", acc+" = "+acc+" + "+v, "println("+v+")", "for "+stmtVar+" = 2 { "+acc+" = "+acc+" + "+stmtVar+" }", "CTL")
 			if st == "CTL" {
-				// REAL DEFECT of the unchanged code, excluded here by construction: the loop keeps the last body value as
-				// it is, i.e. the live register, so when a later iteration is cut short (continue) or the loop is left
-				// (break) the value of the loop is the variable's value at that time, not the one of the last completed
-				// iteration: "x = for k = 4 { if k == 2 { break }; k }; println(x)" prints 2 with registers and 1 without,
-				// "x = for k = 4 { if k == 3 { continue }; k }; println(x)" prints 3 and 2.
-				if bareHere {
-					continue
-				}
+				// (repaired in grol, found by this family: the loop kept the live register as its value, so a later
+				// break / continue changed it: "x = for k = 4 { if k == 2 { break }; k }; println(x)" printed 2 with
+				// registers and 1 without)
 				st = fmt.Sprintf("if %s == %d { %s }", v, g.n("ctl-at", 0, 3), g.pick("ctl", "break", "continue"))
 			}
 			sb.WriteString(st + "; ")
@@ -201,11 +197,11 @@ func TestLoopValue(t *testing.T) {
 				first := g.n("first-var", 0, 3)
 				vars[0], vars[first] = vars[first], vars[0]
 				loop := g.loopExpr(vars, []string{"4", "3", "1", "0", "2:5", "1:2", "6"}, "acc", "lv")
-				// REAL DEFECT of the unchanged code, excluded here by construction: a second counted loop of the same
-				// environment evaluated before the first one's value is copied takes over the released register:
-				// "x = (for k = 4 { k }) + (for j = 2 { j }); println(x)" prints 2 with registers and 4 without. The
-				// other operand is therefore never a loop (lists and argument lists copy element by element: fine).
+				// (repaired in grol, found by this family: a second counted loop took over the released register before
+				// the first one's value was copied: "x = (for k = 4 { k }) + (for j = 2 { j }); println(x)" printed 2
+				// with registers and 4 without)
 				c.Inputs = append(c.Inputs, g.useOf(loop, "for lv = 2 { lv }", p))
+				c.Inputs = append(c.Inputs, fmt.Sprintf("x%d = (%s) %s (for lv = %d { lv })\nprintln(x%d)", p, loop, g.pick("loop-op", "+", "-", "*"), g.n("loop2", 0, 3), p))
 			default: // the value of a loop is the value of a function
 				lvs := []string{fnLoopVar(p, 1), fnLoopVar(p, 2), fnLoopVar(p, 3)}
 				nextra := rapid.SampledFrom([]int{0, 0, 2, 6, 7, 8}).Draw(rt_, "vextra")
@@ -244,13 +240,15 @@ func TestLoopValue(t *testing.T) {
 }
 
 // useOf: one input that consumes the value e (a call or a parenthesisable loop expression); e2 is a second value
-// that may sit next to it in a list or an argument list, x<p> a fresh global.
+// that may sit next to it in a list or an argument list, x<p> a fresh global. Of what catch() returns only .err is
+// used: the other field is the text of the message, whose wording is not compared (it names the operand types, and
+// says REGISTER where the other mode says INTEGER: "unknown operator: STRING PLUS REGISTER").
 func (g *eg) useOf(e, e2 string, p int) string {
 	x := fmt.Sprintf("x%d", p)
 	forms := []string{
 		"println(E)", "println(E)", "X = E\nprintln(X)", "E", "[E, 1]", "[E, E2]", "X = (E) + 1\nprintln(X)", "println(1 + (E))",
 		"println(\"v\", E, E2)", "X = {\"k\": E}\nprintln(X)", "println(ident(E))", "if (E) == 2 { println(\"two\") } else { println(\"other\") }",
-		"X = (E) * 2\nX", "println((E) + (X = 5), X)", "println(str(E) + \"!\")", "X = catch(E)\nprintln(X)", "println(max(E, E2))",
+		"X = (E) * 2\nX", "println((E) + (X = 5), X)", "println(str(E) + \"!\")", "X = catch(E).err\nprintln(X)", "println(max(E, E2))",
 		"X = [E]\nprintln(X[0])", "println(-(E))",
 	}
 	f := g.pick("use", forms...)
@@ -302,9 +300,8 @@ func (g *eg) write(v string) string {
 
 // libStmt: one statement over the variables vs (parameters and/or loop variables). writable: those that may be
 // written. A library call is the left operand of an operator whose right operand writes one of the call's
-// arguments; the bare variable itself never is:
-// REAL DEFECT of the unchanged code, excluded here by construction: "func f(a) { a + (a = 5) }; f(3)" gives 10
-// with registers and 8 without (the left operand stays the live register while the right one is evaluated).
+// arguments, and so is the bare variable itself (repaired in grol, found while building this family:
+// "func f(a) { a + (a = 5) }; f(3)" gave 10 with registers and 8 without).
 func (g *eg) libStmt(vs, writable []string, local string, depth, fn int) string {
 	x := vs[g.n("x", 0, len(vs)-1)]
 	y := vs[g.n("y", 0, len(vs)-1)]
@@ -325,6 +322,9 @@ func (g *eg) libStmt(vs, writable []string, local string, depth, fn int) string 
 	case 2:
 		return local + " = " + local + " " + op + " " + g.libCall(x, y, true)
 	case 3: // the call, then a write to one of its arguments in the same expression
+		if g.chance("bare-left", 40) {
+			return "println(" + wv + " " + op + " " + g.write(wv) + ", " + wv + ")"
+		}
 		return "println(" + g.libCall(x, wv, true) + " " + op + " " + g.write(wv) + ", " + wv + ")"
 	case 4:
 		return "println([" + g.libCall(wv, y, false) + ", " + g.write(wv) + ", " + g.libCall(wv, x, false) + ", " + g.write(wv) + ", " + g.libCall(x, wv, true) + "])"
@@ -340,9 +340,14 @@ func (g *eg) libStmt(vs, writable []string, local string, depth, fn int) string 
 		if fn < 0 {
 			lv = topLoopVars[depth]
 		}
-		b := g.pick("lbound", "3", "2", "1:4", "4", "min("+x+", 3)", "0:max("+y+", 1)")
-		if depth == 0 || x == vs[len(vs)-1] { // a parameter only bounds the outermost loop (they stay small, but not that small)
-			b = g.pick("lbound-var", b, x, x+" + 1", "0:"+x)
+		b := g.pick("lbound", "3", "2", "1:4", "4")
+		// a bound is an integer ("for v = true" never ends): loop variables always are, parameters when the calls say so.
+		// A parameter only bounds the outermost loop of a statement: the bodies write them.
+		isLoopVar := loopVarName.MatchString
+		if (g.intArgs && depth == 0) || isLoopVar(x) && isLoopVar(y) {
+			b = g.pick("lbound-var", b, "min("+x+", 3)", "0:max("+y+", 1)", x, x+" + 1", "0:"+x)
+		} else if g.intArgs {
+			b = g.pick("lbound-lib", b, "min("+x+", 3)", "1:min(4, "+y+")")
 		}
 		var body []string
 		for s, ns := 0, g.n("lstmts", 1, 2); s < ns; s++ {
@@ -378,6 +383,7 @@ func TestLibraryArgs(t *testing.T) {
 			for i := 0; i < np; i++ {
 				params = append(params, fmt.Sprintf("p%d", i))
 			}
+			g.intArgs = g.chance("allints", 70)
 			var body []string
 			for s, ns := 0, g.n("nstmts", 1, 4); s < ns; s++ {
 				body = append(body, g.libStmt(params, params, "t", 0, p))
@@ -389,11 +395,10 @@ func TestLibraryArgs(t *testing.T) {
 				def = fmt.Sprintf("h%d = (%s) => %s", p, strings.Join(params, ", "), g.libCall(x, y, true)+" "+g.pick("op", "+", "-", "*")+" "+g.write(y))
 			}
 			c.Inputs = append(c.Inputs, def)
-			allInts := g.chance("allints", 70)
 			for k, nk := 0, g.n("ncalls", 1, 3); k < nk; k++ {
 				var args []string
 				for i := 0; i < np; i++ {
-					if allInts {
+					if g.intArgs {
 						args = append(args, g.pick("intarg", "1", "2", "0", "-1", "7", "3", "4", "5")) // (small: they bound loops)
 					} else {
 						args = append(args, g.pick("arg", "1", "2", "0", "-1", "7", "1.5", `"12"`, `"a"`, "[1]", "nil", "true", "-2.5"))
